@@ -91,7 +91,9 @@ def big_case(draw):
     return {'size': 'big', 'kind': kind, 'spec': spec,
             'n': draw(st.integers(10241, 10400)), 'p': draw(st.sampled_from([7919, 104729, 31])),
             'm': draw(st.sampled_from([50, 5000, 20000])), 'batch': draw(st.sampled_from([7, 1000])),
-            'batch2': 1000}
+            'batch2': 1000,
+            # an earlier resource sorted by the same step that is itself bigger than the in-memory cache
+            'companion': draw(st.booleans()), 'companion_big': True}
 
 
 @st.composite
@@ -176,14 +178,22 @@ def run_sort(rows, key, reverse, batch, companion=False):
            {'name': 'other', 'fields': [{'name': 'q', 'type': 'integer'}], 'rows': [{'q': 3}, {'q': 1}, {'q': 2}]}]
     sel = 'res1'
     if companion:
-        pkg.insert(0, {'name': 'first', 'fields': copy.deepcopy(flds), 'rows': copy.deepcopy(COMPANION_ROWS)})
+        crow = copy.deepcopy(COMPANION_ROWS)
+        if companion == 'big':
+            crow = [dict(COMPANION_ROWS[j % 2], _i=j, s='c%05d' % ((j * 7919) % 10300), i=j % 9000) for j in range(10300)]
+        pkg.insert(0, {'name': 'first', 'fields': copy.deepcopy(flds), 'rows': crow})
         sel = ['first', 'res1']
     desc = gen.descriptor_of(pkg)
     kw = {} if batch is None else {'batch_size': batch}
-    d, out = run_steps([dataflows.sort_rows(key, resources=sel, reverse=reverse, **kw)], desc, gen.tables_of(pkg))
+    step = dataflows.sort_rows(key, resources=sel, reverse=reverse, **kw)
+    # other sort_rows steps of the same process, built after this one and never run (flows are often defined first and run
+    # later): they name the same fields in the other style (plain vs with a format spec) - step instances share nothing
+    dataflows.sort_rows(['n1', 'n2', 's', 'i', 'n 3', 'n-4'])
+    dataflows.sort_rows('{n1!s:>12}|{n2!s:>12}|{s!s:>6}|{i:06d}|{n 3!s:>12}|{n-4!s:>12}')
+    d, out = run_steps([step], desc, gen.tables_of(pkg))
     if out[-1] != [{'q': 3}, {'q': 1}, {'q': 2}]:
         raise Violation('bystander-changed', {'got': out[-1]})
-    if companion and sorted(r['_i'] for r in out[0]) != [0, 1]:
+    if companion and sorted(r['_i'] for r in out[0]) != list(range(len(pkg[0]['rows']))):
         raise Violation('companion-resource-not-a-permutation', {'got': out[0]})
     return out[-2]
 
@@ -198,7 +208,7 @@ def check(case, ctx):
     keyed = [ref_keys(comps, r) for r in rows]
     classes = [case['size'], 'key:' + case['kind']]
     try:
-        comp = bool(case.get('companion'))
+        comp = bool(case.get('companion')) and ('big' if case.get('companion_big') else True)
         if comp:
             classes.append('with-text-keyed-companion-resource')
         fwd = run_sort(rows, build_key(case['kind'], case['spec']), False, case['batch'], comp)
